@@ -16,7 +16,8 @@ NOTE_D = ("Trusted: MIR pretty-printer, MIR->SMT translator (differentially vali
           "Stubs: std::time (SystemTime::elapsed, Duration constructors/comparison) as exact integer nanoseconds; <f64 as From<ChronyFloat>>::from returns an arbitrary finite double; "
           "tracing macros replaced by an empty-bodied shim crate in the analysed build; in C08/C09 extract_bound_from_tracking and ShmWrite::write are environment. "
           "Virtual calls are dispatched on the concrete type recorded at the unsizing cast.")
-NOTE_W = ("Trusted: MIR pretty-printer, the event extractor, the RC11 encoding (exact for one writer + read-only readers), z3. Assumed: plain and "
+NOTE_W = ("A writer that keeps private state across calls is modelled by carrying its object from ShmWriter::new through every write() of the scenario; code that looks inside the record gets the "
+          "record content as an uninterpreted function of (word, publication) and is replayed natively by a sequential publish/snapshot run with the contents the solver chose. " +"Trusted: MIR pretty-printer, the event extractor, the RC11 encoding (exact for one writer + read-only readers), z3. Assumed: plain and "
           "volatile record accesses behave as per-word relaxed atomics (racy plain accesses are UB under the letter of the model); one writer at a "
           "time; SeqCst treated as AcqRel. Stubs: open/mmap of the segment (one region at offset 0). Bounds as listed in the evidence; calls that need "
           "more than R = 2N+1 retry iterations and more than N overlapping publications are outside the claim.")
@@ -62,13 +63,16 @@ CHECKS = {
                  "all return paths of ClockErrorBound::now(): REALTIME is read first, the monotonic clock second, and the interval is centred on the first reading. The order is structural, so it holds "
                  "for every delay between the steps.", NOTE_D, TECH_M),
     'C13': ('M+K', "All combinations of environment answers in one iteration of the real poller loop (clock read, chronyd answer, PHC configured, reference ids, PHC read, grace period): exactly one message to "
-                 "the ShmWriter mailbox, of the documented kind, with the PHC bound added iff the ids match; and the grace-period arithmetic of ClockErrorBoundPoller for all instants of a symbolic "
+                 "the ShmWriter mailbox, of the documented kind (the grace-period answer that counts is the one given once chronyd's silence is known: the answers before and after the query are "
+                 "independent unknowns), with the PHC bound added iff the ids match; and the grace-period arithmetic of ClockErrorBoundPoller for all instants of a symbolic "
                  "monotone clock (outside right after start; inside iff less than 5 s since the last tracking reply; only a tracking reply records the instant); the configured reference id: a Kani/CBMC harness proves refid_to_u32 is the big-endian packing of its bytes for every ASCII string of <= 4 bytes and an error for 5 (unwind 6). Socket I/O is environment.", NOTE_D + " Kani 0.68 (CBMC 6.11, cadical) on the compiled crate with the tracing shims for the refid harness.", TECH_M + "; Kani bounded model checking for refid_to_u32"),
     'C14': ('M', "All inputs of the stated domain: every panic/overflow site reachable from now() (asserts of the overflow-checked MIR, nix's range panics) is proved unreachable, and the error "
                  "kinds are proved to be returned exactly under their documented conditions.", NOTE_NOW, TECH_M),
     'C15': ('M+C', "Bounded protocol-level check. Step relations extracted from the MIR by symbolic execution: one iteration of the receive loop of thread_manager::run and what follows it (broadcast_abort "
                    "executed from its MIR over the abstract key set, joins, return), one iteration of the poller loop and of the writer loop over a symbolic mailbox outcome, <Context as Drop>::drop for both "
-                   "values of panicking(), the entry functions and thread closures (which Context they pass on; where the Context may flow). Every table entry is a solver query. Composition (z3, bounded "
+                   "values of panicking(), the entry functions and thread closures (which Context they pass on; where the Context may flow); both iteration orders of the channel map; collect-into-Result "
+                   "short-circuits; send results tied to the liveness of the receiver; the real ClockErrorBoundPoller::{get_tracking, is_within_grace_period} over a symbolic outage length for delays "
+                   "no message interrupts (budget 2 s). Every table entry is a solver query. Composition (z3, bounded "
                    "model checking): three processes over FIFO queues, rounds of one step per thread in arbitrary order, one injected worker fault (panic or return, at start-up or any iteration) plus the "
                    "deaths the code itself produces; for every schedule of K = 6 (quick) / 11 (thorough) rounds, main has returned R = 3 / 6 rounds after the first death (queues <= 4 / 6). A counterexample "
                    "is replayed by running the real thread_manager::run in the sandbox with the fault injected through cfg-gated fault points under a 10 s watchdog; three (six) such native runs are "
@@ -80,7 +84,8 @@ CHECKS = {
             TECH_M + "; bounded model checking of the composed step relations (z3); native fault-injection replay of the real thread_manager::run"),
     'C16': ('M', "Every header (all 2^128 values of the 16 header bytes, as the four typed fields they are in bijection with) x every read length -1..16 x every success/failure of open, read and mmap: "
                  "ShmReader::new succeeds exactly for (magic, version != 0, generation != 0, declared size >= 72, calls ok) and otherwise returns the documented error kind with the failing call's errno "
-                 "and origin; no panic, no read of uninitialised header bytes, descriptor closed and mapping released on every path; both clients' error conversions; ShmWriter::wipe's file image "
+                 "and origin; no panic, no read of uninitialised header bytes, descriptor closed and mapping released on every path - the reader's drop glue is "
+                 "run and the length it unmaps is the length that was mapped -; both clients' error conversions; ShmWriter::wipe's file image "
                  "(72 bytes, documented header, zeros) and the validity of the header after wipe + version store + first publication.",
             "Trusted: MIR pretty-printer, translator, z3. Environment: libc open/read/mmap/close/munmap/errno (POSIX contract, any errno), File/WriteBytesExt/Seek operations of wipe() as append events. "
             "User Drop impls (FdGuard, MmapGuard) are inlined at drop terminators. Uninitialised-read and outcome counterexamples are replayed natively (real ShmReader::new on the constructed file, "
@@ -94,7 +99,8 @@ CHECKS = {
             "come from the real compilers). A C *program* built against libclockbound is not symbolically executed.", TECH_M + "; CBMC on the C header"),
     'C18': ('M+W', "Termination by induction, no unrolling bound: a loop-carried counter of snapshot()'s retry loop is proved to decrease on every retry path and to force an exit at 0; the "
                    "initial budget is a constant read from the MIR, giving an explicit bound on shared accesses per call; all reader events are loads/fences; stalled-writer RC11 scenarios "
-                   "(update cut at any event) admit no stuck state.", NOTE_W, TECH_W),
+                   "(update cut at any event) admit no stuck state. When snapshot() has several loops each one needs its own ranking argument; a loop without one is run natively against a writer "
+                   "dead on an odd generation (from the start / from the second load on) and against a writer that never stops.", NOTE_W, TECH_W),
     'C19': ('M', "All 2^32 + 1 option values: on the release-profile MIR of main (plain u32 arithmetic wraps there), every path that reaches thread_manager::run passes exactly 1000 x the "
                  "option as integers (1000 when omitted), and every representable rate reaches run on some path; the record's max_drift_ppb is stored into the segment by every write() (typed execution of "
                  "ShmWriter::write, any start generation, any prior content - a segment left by a previous daemon included); counterexamples are replayed with the real release binary / the real writer.",
